@@ -39,6 +39,12 @@ CHECKS = {
  "C08": (EX, "ESGrammar.tla is a recogniser for ECMAScript Pattern in the legacy (Annex B), u and v grammars with the early errors; TLC enumerates as a state space every string of at most n tokens over seven token alphabets and the runner's Ok/Err under 12 flag sets x 2 pipelines must equal the verdict in both directions; seeded single-edit neighbours of rendered family patterns are judged by TLC.",
          "TLC-enumerated token strings (state space) judged by the ESGrammar TLA+ recogniser + TLC-judged near-valid edits", "5 C08",
          "corners the transcription does not decide are answered 'unk' and never alarmed; D14 (\\u{...} without u/v) is a known finding required by the pinned suite"),
+ "C12": (MC, "ClassSet.tla gives the denotation of bracket expressions and class sets (CompileToCharSet with MaybeSimpleCaseFolding and the u / v complement rules, strings longest first) and ESSem matches with it; TLC enumerates the class families FC1/FC2 exhaustively and judges every observation; IntervalSet.tla, the CodePointSet state machine, is explored completely by TLC (representation invariant, algebraic laws) and every one of its transitions is replayed on the real CodePointSet.",
+         "TLC-judged exhaustive replay against the ClassSet/ESSem TLA+ semantics + complete TLC exploration of the IntervalSet machine replayed transition by transition", "5 C12",
+         "sets are evaluated on the model universe; D8 (legacy i closes classes under simple case folding) is a known finding"),
+ "C10": (EX, "Fold.tla states the single canonical relation by its classes; an oracle independent of regress supplies the classes for all code points; the runner sweeps all 1 114 112 code points through every folding mechanism (hooks) and runs literal / class / negated class / backreference regexes for every cased code point in i, iu, iv; TLC (JudgeFold.tla) judges every record; the model-alphabet families are judged against ESSem.",
+         "exhaustive sweep over all code points judged by TLC against the Fold TLA+ relation with an external oracle", "5 C10",
+         "oracle = regex-syntax Unicode 16 simple case folding + Rust std Unicode 17 to_uppercase; differences confined to code points assigned after Unicode 16 or to supplementary code points without u/v are reported as undecided"),
  "C07": (EX, "Every compile of the C08 exploration must return (panics are caught per case, process deaths and watchdog expiries are attributed to their case), and Limits.tla states the resource contract for adversarially large patterns (nesting to 10^5-10^6, 10^6 groups/loops/alternatives/characters, counts to 10^23, nested exact counts), which the runner expands and compiles in child processes.",
          "TLC-enumerated short strings + TLA+ resource-limit families replayed under a watchdog in child processes", "5 C07",
          "totality over arbitrarily long inputs is sampled at the listed sizes, not exhausted; watchdog 20 s / 60 s per compile call"),
